@@ -82,5 +82,39 @@ func directC02shadow(g *G, rep *Report) {
 			}
 		}
 	}
+	// a binder binds ITS OWN name only: whatever bookkeeping a loop keeps for index/isFirst/isLast must not hide
+	// other variables, however they are named (names built from the loop variable's name with the usual suffixes
+	// of generated identifiers)
+	for _, lv := range []string{"a", "x1", "item"} {
+		for _, sfx := range []string{"__index", "__lastIndex", "_index", "Index", "__limit", "__isFirst", "__isLast", ".index"} {
+			other := lv + sfx
+			if strings.Contains(other, ".") {
+				continue
+			}
+			for li, loop := range []string{"{foreach $" + lv + " in $l}[{$" + other + "}{index($" + lv + ")}]{/foreach}", "{for $" + lv + " in range(2)}[{$" + other + "}{isLast($" + lv + ")}]{/for}",
+				"{let $" + other + ": 'L' /}{foreach $" + lv + " in $l}[{$" + other + "}]{/foreach}"} {
+				hdr := "/** @param " + other + "\n @param l */\n"
+				if li == 2 {
+					hdr = "/** @param l */\n"
+				}
+				fs := []srcFile{{"s.soy", "{namespace s}\n" + hdr + "{template .t}\n" + loop + "\n{/template}\n"}}
+				reg, err := compileBundle(fs)
+				rep.Evaluations++
+				if err != nil {
+					continue
+				}
+				out, cls := renderSafe(reg, "s.t", toData(map[string]interface{}{other: "P", "l": []interface{}{"u", "v"}}), nil)
+				want := map[int]string{0: "[P0][P1]", 1: "[Pfalse][Ptrue]", 2: "[L][L]"}[li]
+				if cls != "OK" || out != want {
+					if len(rep.Violations) < 20 {
+						rep.Violations = append(rep.Violations, Viol{Key: "c02shadow:loop-hides-other-name:" + sfx, What: "inside a loop over $" + lv + " the variable $" + other + " (a param or let of its own) does not have its own value",
+							Req: req("c02shadow", encSources(fs)), Note: loop, Impl: cls + " " + quote([]byte(out)), Want: "OK " + quote([]byte(want))})
+					}
+				} else {
+					rep.DistinctNT++
+				}
+			}
+		}
+	}
 	rep.Samples = append(rep.Samples, "{let $x: $u /}{$x ?: 'D'} under a param x = 'OUT' renders D")
 }
